@@ -6,6 +6,7 @@ Poisson solve velocity = curl_h ψ/(2h) (zero ring) + free stream, forcing ≡ 0
 0 in this theorem (the filter is C19_filter_*, the damping C19_damping_*).
 -/
 import SophtVerif.Spec.Ops3D
+import SophtVerif.Props.C01
 import SophtVerif.Props.C20_3D
 
 set_option linter.unusedVariables false
@@ -152,31 +153,30 @@ structure Distinct3 (b : NS3Bufs B) : Prop where
 theorem vecOf_frame (s t : Store3 B K) (v : Vec3 B) (hx : t v.x = s v.x) (hy : t v.y = s v.y) (hz : t v.z = s v.z) :
     vecOf t v = vecOf s v := by simp [vecOf, hx, hy, hz]
 
-/-- the pre-solve part of the 3D Navier–Stokes step (filter off, boundary-zone width 0):
-`ω ↦ diffuse(rotational(force(ω)))` with the prefactors the code forms (`dt/(2 dx ρ)`, `dt/(2 dx)`, `ν dt/dx²`), for every
-store, every grid size ≥ 1, forcing on or off -/
-theorem C01_pre_solve_3d (T : Transc K) (c : NS3Cfg K) (hw : c.width = 0) (hf : c.filter = false)
-    (hnz : 1 ≤ c.nz) (hny : 1 ≤ c.ny) (hnx : 1 ≤ c.nx) (b : NS3Bufs B) (hd : Distinct3 b) (s : Store3 B K) :
-    let w1 := if c.forcing then forcingOp3 c.nz c.ny c.nx (c.dt / (2 * c.dx * c.rho)) (vecOf s b.force) (vecOf s b.vort) else vecOf s b.vort
-    EqV c.nz c.ny c.nx (vecOf (exec3 (nsStep3DPre T c b) s) b.vort)
-      (diffuseOp3 c.nz c.ny c.nx (c.nu * c.dt / c.dx / c.dx) (rotationalOp3 c.nz c.ny c.nx (c.dt / (2 * c.dx)) (vecOf s b.vel) w1)) := by
-  intro w1
+/-- forcing, rotational-form transport and diffusion: the part of the pre-solve program before filter and damping -/
+def core3 (c : NS3Cfg K) (b : NS3Bufs B) : List (Call3 B K) :=
+  (if c.forcing then updateVorticityFromForcing3D c.nz c.ny c.nx b.vort b.force (c.dt / (2 * c.dx * c.rho)) else [])
+    ++ crossProduct3D c.nz c.ny c.nx b.buf b.vel b.vort
+    ++ updateVorticityFromForcing3D c.nz c.ny c.nx b.vort b.buf (c.dt / (2 * c.dx))
+    ++ diffusionTimestepVec3D c.nz c.ny c.nx b.vort b.buf.x (c.nu * c.dt / c.dx / c.dx)
+
+/-- specification of the vorticity after `core3` -/
+def coreSpec3 (c : NS3Cfg K) (F u w : V3F K) : V3F K :=
+  diffuseOp3 c.nz c.ny c.nx (c.nu * c.dt / c.dx / c.dx) (rotationalOp3 c.nz c.ny c.nx (c.dt / (2 * c.dx)) u
+    (if c.forcing then forcingOp3 c.nz c.ny c.nx (c.dt / (2 * c.dx * c.rho)) F w else w))
+
+theorem core3_spec (c : NS3Cfg K) (hnz : 1 ≤ c.nz) (hny : 1 ≤ c.ny) (hnx : 1 ≤ c.nx) (b : NS3Bufs B) (hd : Distinct3 b) (s : Store3 B K) :
+    EqV c.nz c.ny c.nx (vecOf (exec3 (core3 c b) s) b.vort) (coreSpec3 c (vecOf s b.force) (vecOf s b.vel) (vecOf s b.vort)) := by
   obtain ⟨wF, wb, bw, bv, wv⟩ := hd
-  have hprog : nsStep3DPre T c b
-      = (if c.forcing then updateVorticityFromForcing3D c.nz c.ny c.nx b.vort b.force (c.dt / (2 * c.dx * c.rho)) else [])
-        ++ crossProduct3D c.nz c.ny c.nx b.buf b.vel b.vort
-        ++ updateVorticityFromForcing3D c.nz c.ny c.nx b.vort b.buf (c.dt / (2 * c.dx))
-        ++ diffusionTimestepVec3D c.nz c.ny c.nx b.vort b.buf.x (c.nu * c.dt / c.dx / c.dx) := by
-    simp [nsStep3DPre, hf, hw, penaliseBoundaryVec3D, penaliseBoundary3D]
-  rw [hprog]
+  unfold core3 coreSpec3
   simp only [exec3_append]
+  set w1 := (if c.forcing then forcingOp3 c.nz c.ny c.nx (c.dt / (2 * c.dx * c.rho)) (vecOf s b.force) (vecOf s b.vort) else vecOf s b.vort) with hw1
   set s1 := exec3 (if c.forcing then updateVorticityFromForcing3D c.nz c.ny c.nx b.vort b.force (c.dt / (2 * c.dx * c.rho)) else []) s with hs1
   set s2 := exec3 (crossProduct3D c.nz c.ny c.nx b.buf b.vel b.vort) s1 with hs2
   set s3 := exec3 (updateVorticityFromForcing3D c.nz c.ny c.nx b.vort b.buf (c.dt / (2 * c.dx))) s2 with hs3
   -- stage 1
   have h1 : EqV c.nz c.ny c.nx (vecOf s1 b.vort) w1 := by
-    rw [hs1]
-    simp only [w1]
+    rw [hs1, hw1]
     cases c.forcing
     · simp only [Bool.false_eq_true, if_false, exec3_nil]; exact EqV.refl' _ _ _ _
     · simp only [if_true]; exact forcing_spec3 c.nz c.ny c.nx b.vort b.force wF _ s
@@ -204,6 +204,18 @@ theorem C01_pre_solve_3d (T : Transc K) (c : NS3Cfg K) (hw : c.width = 0) (hf : 
   rw [h2vort]
   refine forcingOp3_congr _ _ _ _ _ _ _ _ (h2.trans' (cross3_congr _ _ _ _ _ _ _ ?_ h1)) h1
   rw [h1vel]; exact EqV.refl' _ _ _ _
+
+/-- the pre-solve part of the 3D Navier–Stokes step (filter off, boundary-zone width 0):
+`ω ↦ diffuse(rotational(force(ω)))` with the prefactors the code forms (`dt/(2 dx ρ)`, `dt/(2 dx)`, `ν dt/dx²`), for every
+store, every grid size ≥ 1, forcing on or off -/
+theorem C01_pre_solve_3d (T : Transc K) (c : NS3Cfg K) (hw : c.width = 0) (hf : c.filter = false)
+    (hnz : 1 ≤ c.nz) (hny : 1 ≤ c.ny) (hnx : 1 ≤ c.nx) (b : NS3Bufs B) (hd : Distinct3 b) (s : Store3 B K) :
+    EqV c.nz c.ny c.nx (vecOf (exec3 (nsStep3DPre T c b) s) b.vort)
+      (coreSpec3 c (vecOf s b.force) (vecOf s b.vel) (vecOf s b.vort)) := by
+  have hprog : nsStep3DPre T c b = core3 c b := by
+    simp [nsStep3DPre, core3, hf, hw, penaliseBoundaryVec3D, penaliseBoundary3D]
+  rw [hprog]
+  exact core3_spec c hnz hny hnx b hd s
 
 /-- after the Poisson solve (3D): velocity = `(1/(2dx))·curl_h ψ` with zero boundary ring, plus the free stream when
 enabled; the body-forcing field is identically zero on return when forcing is enabled -/
@@ -282,5 +294,18 @@ theorem C01_passive_step_3d (nz ny nx : ℤ) (hnz : 1 ≤ nz) (hny : 1 ≤ ny) (
   intro i j k hb
   rw [diffuse1_spec3 nz ny nx hnz hny hnx f flux hne _ s1 i j k hb]
   exact diffuse1_congr nz ny nx _ _ _ h1 i j k hb
+
+/-! ### passive transport (2D) -/
+
+/-- one passive-transport step (2D): `diffuse(advect(f))` with the 2D specification operators of Spec/Ops2D,
+independent of the scratch buffer (and the same consistency / conservation theorems apply: C02, C04) -/
+theorem C01_passive_step_2d (ny nx : ℤ) (hny : 1 ≤ ny) (hnx : 1 ≤ nx) (f flux : B) (vel : Vec2 B)
+    (hne : flux ≠ f) (hvx : vel.x ≠ flux) (hvy : vel.y ≠ flux) (dt dx nu : K) (s : Store2 B K) :
+    EqBox ny nx (exec2 (passiveStep2D ny nx f flux vel dt dx nu) s f)
+      (diffuseOp ny nx (nu * dt / dx / dx) (advectOp ny nx (dt / dx) (s vel.x) (s vel.y) (s f))) := by
+  unfold passiveStep2D
+  rw [exec2_append]
+  exact EqBox.trans' (diffuse_spec ny nx hny hnx f flux hne _ _)
+    (diffuseOp_congr ny nx _ _ _ (advect_spec ny nx f flux vel hne hvx hvy _ s))
 
 end Sopht.Props.C01
